@@ -227,7 +227,13 @@ def gen_unit(rng, cfg, tables, info_offset, abbrev_offset, decls):
         tables.rnglists += b'\x00' * 12 + b''.join(cfg.off(o) for o in env['rngoffs'])
     # header
     ut = cfg.unit_type
-    if cfg.version >= 5:
+    sig = toff = None
+    if ut == 'TU4':
+        # a type unit of the version 4 .debug_types section (7.5.1.2): the compilation unit header followed by the
+        # 8-byte type signature and the offset-sized offset of the type's entry within the unit
+        sig, toff = r.randrange(1 << 64), r.randrange(1 << 16)
+        body_hdr = cfg.u(cfg.version, 2) + cfg.off(abbrev_offset) + bytes([cfg.asz]) + cfg.u(sig, 8) + cfg.off(toff)
+    elif cfg.version >= 5:
         body_hdr = cfg.u(cfg.version, 2) + bytes([V5_UNIT_TYPES[ut], cfg.asz]) + cfg.off(abbrev_offset)
         if ut in ('DW_UT_skeleton', 'DW_UT_split_compile'):
             dwo = r.randrange(1 << 64)
@@ -303,16 +309,19 @@ def gen_unit(rng, cfg, tables, info_offset, abbrev_offset, decls):
     data = cfg.initial_length(unit_length) + body_hdr + bytes(out)
     exp = dict(cu_offset=info_offset, unit_length=unit_length, version=cfg.version, address_size=cfg.asz,
                debug_abbrev_offset=abbrev_offset, cu_die_offset=die_off, size=il + unit_length, entries=entries,
-               unit_type=ut if cfg.version >= 5 else None, cfg=cfg)
+               unit_type=ut if cfg.version >= 5 else None, cfg=cfg, signature=sig, type_offset=toff)
     return data, exp
 
 
-def gen_section(rng, cfgs, shared_abbrev=False):
-    """several units of the given configurations in one .debug_info; returns (sections dict, [expected per unit])"""
+def gen_section(rng, cfgs, shared_abbrev=False, type_cfgs=()):
+    """several units of the given configurations in one .debug_info (and, for type_cfgs -- version 4 configurations with
+    unit_type 'TU4' -- type units in one .debug_types); returns (sections dict, [expected per unit]); the expectations of
+    the type units follow those of the .debug_info units and carry section='debug_types'"""
     tables = Tables(rng)
     info, abbrev, exps = b'', b'', []
+    types, texps = b'', []
     shared = None
-    for cfg in cfgs:
+    for cfg in list(cfgs) + list(type_cfgs):
         if shared_abbrev and shared is not None and shared[2] == cfg.version:
             aoff, decls = shared[0], shared[1]
         else:
@@ -325,9 +334,16 @@ def gen_section(rng, cfgs, shared_abbrev=False):
             aoff = len(abbrev) + rng.choice([0, 0, 3])
             abbrev += b'\x00' * (aoff - len(abbrev)) + enc_abbrevs(decls)
             shared = (aoff, decls, cfg.version)
+        if cfg.unit_type == 'TU4':
+            data, exp = gen_unit(rng, cfg, tables, len(types), aoff, decls)
+            exp['section'] = 'debug_types'
+            types += data
+            texps.append(exp)
+            continue
         data, exp = gen_unit(rng, cfg, tables, len(info), aoff, decls)
         info += data
         exps.append(exp)
-    secs = dict(debug_info=info, debug_abbrev=abbrev, debug_str=tables.str, debug_line_str=tables.line_str, debug_addr=tables.addr,
+    exps += texps
+    secs = dict(debug_types=types, debug_info=info, debug_abbrev=abbrev, debug_str=tables.str, debug_line_str=tables.line_str, debug_addr=tables.addr,
                 debug_str_offsets=tables.str_offsets, debug_loclists=tables.loclists, debug_rnglists=tables.rnglists)
     return secs, exps
